@@ -833,7 +833,7 @@ pub fn suite_cap(ctx: &mut Ctx) {
                 continue;
             }
             let mut rng = Rng::new(ctx.seed ^ 0xf4a6 ^ (k as u64) << 8);
-            let n = 4500 + rng.below(2500);
+            let n = 10_000 + rng.below(4000);
             let old: Vec<u32> = (0..n).map(|_| rng.below(4) as u32).collect();
             let mut new = old.clone();
             for _ in 0..n / 3 {
